@@ -258,3 +258,10 @@ PROPS["C14"]["rule"] += (" ; plus one call site snapshot(V[0]) / snapshot([V[0],
                          "one or two tests, every flag set (harness/engines/reeval.py)")
 ENGINES["reeval"] = ("the hand-written argument of one call evaluates to a different value later: result of every comparison and categories vs Model/Table.lean (`snap` re-evaluation); "
                      "oracle: UsageError exactly when the argument differs from its first value")
+
+PROPS["C10"]["engines"].append(("site", {"quick": 1200, "thorough": 30000}))
+PROPS["C10"]["rule"] += (" ; plus the site engine: 15% of the elements of `in` collections are written as Is(v) / f-strings (user-controlled: never altered by update / fix, removed only by "
+                         "trim with their untested element), used or never used")
+
+PROPS["C08"]["engines"].append(("mutate", {"quick": 800, "thorough": 20000}))
+PROPS["C08"]["rule"] += " ; plus the mutate engine (objects mutated in place between / after comparisons): with everything approved the same run a second time is a no-op"
